@@ -52,6 +52,12 @@ func checkC12(c *Ctx) {
 	c.closuresCompleteOnce()
 	// what goes out has the length Len() says and the bytes the encoder counted (T1 length tables, B14)
 	c.codecLengthTables()
+	// per-object buffers and lists do not start as views of package-level memory
+	c.noSharedBacking()
+	// a packet that wraps around the end of the outgoing ring is encoded into a scratch buffer that holds it
+	c.scratchHoldsTheMessage()
+	// an acknowledgement that lies across the end of the incoming ring is assembled from its own bytes
+	c.scratchReset()
 }
 
 // senders: methods of service that write a request into the ring and register it in an ack queue.
